@@ -39,7 +39,12 @@ struct Prog {
 // ctxsw: the APBP handler is entered with a context switch (ic0 = 1) and ends in retic;
 // timer_period != 0: timer 0 in auto-restart mode raises IRQ 10 -> int1 (trivial handler) so that a second core line is
 // being latched and sampled while the host's requests arrive on int0
-Prog guest(bool ctxsw, unsigned timer_period) {
+// dispatch: the int0 handler is written the way icu.md prescribes for a shared line: read the controller's request
+// register, return at once if IRQ 14 is not pending, otherwise acknowledge it FIRST and then service the mailboxes
+// (acknowledging before servicing makes the protocol loss-free: a send that arrives later sets the bit again). A request
+// bit lost inside the controller (a host Trigger overwritten by the DSP's Acknowledge of another IRQ) then leaves a value
+// unread for ever.
+Prog guest(bool ctxsw, unsigned timer_period, bool dispatch = false) {
     Prog p;
     p.at = 0;
     p.w2(BR, 0x0100);
@@ -79,6 +84,16 @@ Prog guest(bool ctxsw, unsigned timer_period) {
     p.w2(BR, (u16)main);
     // ---- APBP interrupt handler
     p.at = 0x0200;
+    if (dispatch) {
+        p.w2(MOV_M_A0, MMIO + 0x200); // 0x200 request register
+        p.w2(TST0_A0L, 0x4000);       // IRQ 14 pending?
+        p.w(BRR_EQ(2));               // no: to the return below
+        p.w2(BR, 0x0210);
+        p.w(ctxsw ? RETIC : RETI);
+        p.at = 0x0210;
+        p.w2(MOV_I_A1L, 0x4000);
+        p.w2(MOV_A1L_M, MMIO + 0x202); // acknowledge IRQ 14 before looking at the mailboxes
+    }
     p.w2(MOV_M_A0, MMIO + 0x0D6);
     p.w2(TST0_A0L, 0x0100); // C0
     p.w(BRR_EQ(4));
@@ -93,8 +108,10 @@ Prog guest(bool ctxsw, unsigned timer_period) {
     p.w2(MOV_M_A1, MMIO + 0x0D2);  // GET_SEMAPHORE
     p.w2(MOV_A1L_M, MMIO + 0x0D0); // ACK_SEMAPHORE
     p.w2(MOV_A1L_M, MMIO + 0x0CC); // SET_SEMAPHORE (echo to the CPU)
-    p.w2(MOV_I_A1L, 0x4000);
-    p.w2(MOV_A1L_M, MMIO + 0x202); // acknowledge IRQ 14
+    if (!dispatch) {
+        p.w2(MOV_I_A1L, 0x4000);
+        p.w2(MOV_A1L_M, MMIO + 0x202); // acknowledge IRQ 14
+    }
     p.w(ctxsw ? RETIC : RETI);
     // ---- timer interrupt handler (int1): acknowledge and return
     p.at = 0x0280;
@@ -166,8 +183,11 @@ int main(int argc, char** argv) {
         const bool ctxsw = g.chance(1, 2);
         static const unsigned periods[] = {0, 0, 6, 9, 50, 333, 1000};
         const unsigned timer_period = g.pick(periods);
-        for (auto& kv : guest(ctxsw, timer_period).words)
+        const bool dispatch = timer_period != 0 && g.chance(1, 2);
+        for (auto& kv : guest(ctxsw, timer_period, dispatch).words)
             t.ProgramWrite(kv.first, kv.second);
+        if (dispatch)
+            ctx.count("cases_handler_dispatching_on_request_register");
         ctx.count(ctxsw ? "cases_context_switching_handler" : "cases_plain_handler");
         ctx.count(timer_period ? "cases_with_second_interrupt_line" : "cases_single_interrupt_line");
 
